@@ -24,6 +24,7 @@ func NewStructProtoFunc() erpc.ProtoFunc {
 		}
 		p.tProtocol = thrift.NewTHeaderProtocol(&BaseTTransport{
 			ReadWriteCounter: p.rwCounter,
+			frames:           new(frameReader),
 		})
 		p.wProtocol = thrift.NewTHeaderProtocol(&BaseTTransport{
 			ReadWriteCounter: p.rwCounter,
